@@ -1,6 +1,6 @@
 (** C01 - array dimensions always agree with its contents. *)
 From TD Require Import Base.Prelude Spec.Grid Spec.Inv Model.Iter Model.Flatten Model.Owned
-  Model.Access Model.Hist Proofs.HistInv.
+  Model.Access Model.Hist Spec.HistSpec Proofs.HistInv Proofs.GridRefine.
 
 (** one step of ANY public operation of the history machine - constructors, insert / push /
     remove / pop of rows and columns with any iterator script (honest, lying about its
@@ -19,6 +19,37 @@ Theorem C01_history_keeps_shape :
   forall cf ops l, hrun cf h_init ops = Ok l -> Forall (fun p => Inv (h_td (fst p))) l.
 Proof. intros cf ops l. apply hrun_inv. exact h_init_inv. Qed.
 Print Assumptions C01_history_keeps_shape.
+
+(** ... and behaves as the plain rows-of-cells model: for every state satisfying the
+    invariant, every operation and arguments (any [N]), wherever the plain model [g_step]
+    specifies the step - constructors, insert / push with honest iterators, remove / pop with
+    drains consumed to any extent and dropped, clear, swap_dimensions, indexed writes, fill,
+    clone, clone_from, conversions, and every rejected call - the array accepts or rejects
+    as the plain model does, returns the same values (a drain's yields = the ideal run over
+    the removed line), and its buffer read as rows of [num_cols] cells IS the plain model's
+    grid afterwards.  [g_step] is also the specification the run-time oracle evaluates on
+    the implementation's observations.  Side conditions are physical: buffers shorter than
+    2^64 elements, reservations within the allocator's limit ([cap_ok]) *)
+Theorem C01_step_refines_plain_model :
+  forall lim cf o h h' ob,
+  Inv (h_td h) -> (N.of_nat (length (data (h_td h))) < W)%N -> cap_ok cf h o ->
+  hstep cf h o = Ok (h', ob) ->
+  refines o h' ob (g_step lim (cf_cap cf) (to_grid (h_td h)) o (data (h_td h'))).
+Proof. exact hstep_refines. Qed.
+Print Assumptions C01_step_refines_plain_model.
+
+Theorem C01_history_refines_plain_model :
+  forall lim cf ops h l,
+  Inv (h_td h) -> hrun cf h ops = Ok l -> steps_feasible cf h ops l -> steps_refine lim cf h ops l.
+Proof. exact hrun_refines. Qed.
+Print Assumptions C01_history_refines_plain_model.
+
+(** the grid's dimensions are the array's *)
+Theorem C01_grid_dimensions :
+  forall (A : Type) (t : toodee A), Inv t ->
+  g_height (to_grid t) = num_rows t /\ g_width (to_grid t) = num_cols t /\ g_cells (to_grid t) = data t.
+Proof. intros A t Hi. destruct (to_grid_dims t Hi). repeat split; try assumption. apply to_grid_cells. exact Hi. Qed.
+Print Assumptions C01_grid_dimensions.
 
 (** in a state satisfying the invariant, rows(), cells() and every col(c) report the
     lengths num_rows, num_cols*num_rows and num_rows - computed by the iterator models'
